@@ -5,6 +5,8 @@ import UgoVerif.Props.C13
 import UgoVerif.Props.C20
 import UgoVerif.Props.C01
 import UgoVerif.Props.C16
+import UgoVerif.Props.C02
+import UgoVerif.Props.C03
 import UgoVerif.Props.C11
 import UgoVerif.Props.C09
 import UgoVerif.Props.C12
